@@ -481,3 +481,70 @@ package netceptor
 //@   modifies nothing
 //@   loop range fingerprints
 //@     invariant FRAME: fresh(fingerprintBytes) && framemem(fingerprintBytes)
+
+// ---- C17: closing never panics and releases what the object registered
+
+//@ func (*Netceptor).RemoveLocalServiceAdvertisement
+//@   tags C17
+//@   safetytags C17
+//@   safety
+//@   requires s != nil
+
+//@ iface NetcForPacketConn.GetListenerRegistry
+//@   params s
+//@   pure
+//@ iface NetcForPacketConn.GetListenerLock
+//@   params s
+//@   pure
+//@   ensures NONNIL: result != nil
+//@ immutable PacketConn.s, PacketConn.localService, PacketConn.recvChan, PacketConn.advertise, PacketConn.cancel, PacketConn.context
+
+// Close removes the socket's own service name from the registry it was registered in, cancels the socket's
+// context and withdraws the advertisement it made, on every call.
+//@ func (*PacketConn).Close
+//@   tags C17
+//@   safetytags C17
+//@   safety
+//@   requires pc != nil && pc.s != nil
+//@   ghostflag unregistered set delete:map[string]*PacketConn
+//@   ghostflag cancelled set call:cancel
+//@   site delete map[string]*PacketConn UNREGISTER: [C17] requires key == pc.localService && themap == lastcall("GetListenerRegistry", 0)
+//@   site call RemoveLocalServiceAdvertisement WITHDRAW: [C17] requires arg0 == pc.localService && pc.advertise
+//@   ensures RELEASED: [C17] flag("unregistered") && (pc.cancel != nil ==> flag("cancelled"))
+//@   ensures WITHDRAWN: [C17] pc.advertise && result == nil ==> lastcall("RemoveLocalServiceAdvertisement", 0) == nil
+
+//@ immutable Listener.s, Listener.pc, Listener.ql, Listener.acceptChan, Listener.doneChan, Listener.doneOnce
+//@ immutable Conn.s, Conn.pc, Conn.qc, Conn.qs, Conn.doneChan, Conn.doneOnce, Conn.ctx
+
+// doneChan is closed only inside doneOnce: while the once has not fired the channel is open.  Close establishes
+// oncedone, which is also the condition under which calling Close again is safe (idempotence).
+//@ func (*Listener).Close
+//@   tags C17
+//@   safetytags C17
+//@   safety
+//@   requires li != nil && li.pc != nil && li.ql != nil && li.doneOnce != nil && li.doneChan != nil
+//@   rely ONCE: oncedone(li.doneOnce) == closed(li.doneChan)
+//@   site call Close@1 SOCKET: [C17] requires oncedone(li.doneOnce) && closed(li.doneChan)
+//@   ensures AGAIN: [C17] oncedone(li.doneOnce) && closed(li.doneChan)
+
+//@ func (*Conn).Close
+//@   tags C17
+//@   safetytags C17
+//@   safety
+//@   requires c != nil && c.doneOnce != nil && c.qs != nil && c.doneChan != nil
+//@   rely ONCE: oncedone(c.doneOnce) == closed(c.doneChan)
+//@   site call Close STREAM: [C17] requires oncedone(c.doneOnce) && closed(c.doneChan)
+//@   ensures AGAIN: [C17] oncedone(c.doneOnce) && closed(c.doneChan)
+
+//@ func (*Conn).CloseConnection
+//@   tags C17
+//@   safetytags C17
+//@   safety
+//@   requires c != nil && c.doneOnce != nil && c.qc != nil && c.pc != nil && c.s != nil && c.doneChan != nil
+//@   rely ONCE: oncedone(c.doneOnce) == closed(c.doneChan)
+//@   ensures AGAIN: [C17] oncedone(c.doneOnce) && closed(c.doneChan)
+
+//@ func (*Conn).RemoteAddr
+//@   requires c != nil && c.qc != nil
+//@   pure
+//@   ensures NONNIL: result != nil
